@@ -101,7 +101,7 @@ func c11R5(c *Ctx, rule string) {
 		if bad == 0 {
 			c.ok(rule, "parse-dominates-run "+x.fn, p.InstrPos(parse), fmt.Sprintf("%d construction / evaluation / input calls all follow a successful parse", n))
 		}
-		if n < 3 {
+		if n < 2 {
 			c.undecided(rule, "parse-dominates-run-floor "+x.fn, "", fmt.Sprintf("%d evaluation calls found in %s", n, x.fn))
 		}
 		// a parse error is returned as is
